@@ -108,9 +108,10 @@ def check_case(spec, inst, res, keep=None):
     return probs, o1, [[n.is_viable, n.is_necessary] for n in g1.nodes]
 
 def generated_column(res, third):
-    """Third column: the GENERATED code on the inputs of the cases the check found nothing wrong with.  Per case six runs of the
+    """Third column: the GENERATED code on the inputs of the cases the check found nothing wrong with.  Per case seven runs of the
     driver op `gen_generate`: (1) language graph + model through the API + `AttackGraph(lang_graph, model)` + analysis against
-    the first real graph and its labels; (2) the same with the attacker of the check attached (`attach_attackers`) against the
+    the first real graph and its labels; (1b) three generations in one node store, the third graph (ids restart at 0, the
+    references do not) against the real third graph; (2) the same with the attacker of the check attached (`attach_attackers`) against the
     real attached graph; (3-6) the generated `create_attack_graph` on (lang.mar | lang.mal) x (model.json | model.yml) against
     the graph the real wrapper returned for these files (a yml file lists the assets sorted by id).  Everything exact."""
     from .. import genexec
@@ -120,6 +121,7 @@ def generated_column(res, third):
         def add(kind, want, **kw):
             pl.append(genexec.generate_payload(len(pl), lp, kw.pop('inst', ip), **kw)); meta.append((ci, kind, want))
         add('AttackGraph + calculate_viability_and_necessity', dict(o1, labels=labels), calc=True)
+        add('AttackGraph x 3 in one process', o1, again=2)
         if 'attached' in keep:
             add('AttackGraph + attach_attackers', keep['attached'], attackers=[keep['att']], attach=True)
         ysorted = dict(ip, assets=sorted(ip['assets'], key=lambda a: a['id']))
